@@ -26,6 +26,9 @@ type Churn struct {
 	CallbackUs   int    `json:"dial_callback_us"`
 	Backloggers  int    `json:"backloggers"`
 	BacklogParts int    `json:"backlog_parts"`
+	// YieldPerMille (instrumented build only): probability, in 1/1000, with which every lock / unlock
+	// statement of the library yields the processor or sleeps 1-50 us (schedule perturbation)
+	YieldPerMille int `json:"yield_per_mille,omitempty"`
 }
 
 type churnRec struct {
@@ -34,6 +37,7 @@ type churnRec struct {
 }
 
 func runChurn(c Churn) vlib.Result {
+	defer vlib.Yield(c.YieldPerMille, 0x5eed)()
 	vlib.Logs.Take()
 	res := vlib.Result{Classes: []string{"churn", "mode=" + c.Mode}}
 	conf := nbio.Config{NPoller: c.NPoller}
@@ -258,5 +262,8 @@ func genChurn(t *rapid.T) Churn {
 	c.CallbackUs = rapid.SampledFrom([]int{0, 200, 2000}).Draw(t, "callbackus")
 	c.Backloggers = rapid.SampledFrom([]int{0, 1, 2}).Draw(t, "backloggers")
 	c.BacklogParts = rapid.SampledFrom([]int{2, 20, 100}).Draw(t, "parts")
+	if vlib.YieldAvailable {
+		c.YieldPerMille = rapid.SampledFrom([]int{0, 0, 20, 100, 300}).Draw(t, "yield")
+	}
 	return c
 }
